@@ -24,6 +24,16 @@ func main() {
 		err = cmdEnc(os.Args[2:])
 	case "iprange":
 		err = cmdIPRange(os.Args[2:])
+	case "dumpiso":
+		err = cmdDumpISO(os.Args[2:])
+	case "encbuild":
+		err = cmdEncBuild(os.Args[2:])
+	case "classify":
+		err = cmdClassify(os.Args[2:])
+	case "cmpmask":
+		err = cmdCmpMask(os.Args[2:])
+	case "mkworld":
+		err = cmdMkWorld(os.Args[2:])
 	default:
 		err = fmt.Errorf("unknown sub-command %q", os.Args[1])
 	}
